@@ -76,6 +76,9 @@ func (k Keeper) AddAllowedBidders(ctx context.Context, auctionId uint64, allowed
 		if err != nil {
 			return err
 		}
+		// The record is stored under the given auction id, so it must carry that id:
+		// genesis import re-keys every record by its own AuctionId field
+		ab.AuctionId = auctionId
 		if err := k.AllowedBidder.Set(ctx, collections.Join(auctionId, bidder), ab); err != nil {
 			return err
 		}
